@@ -6660,8 +6660,8 @@ def debug_dump_dfa(dfa: DFA, out_name="dfa", highlight=None): # pragma: no cover
                 range_start = i
                 range_end = i
 
-        if range_end - range_start >= ProgramData.option(ProgramOption.COLLAPSED_RANGE_LENGTH):
-            # this is a valid range
+        if range_start < len(on_values_remaining) and range_end - range_start >= ProgramData.option(ProgramOption.COLLAPSED_RANGE_LENGTH):
+            # this is a valid range (as in the code generator: there may be no character at all to start one)
             for j in range(range_start, range_end+1):
                 used.append(on_values_remaining[j])
             label += f"{build_label_single(on_values_remaining[range_start])}-{build_label_single(on_values_remaining[range_end])},"
